@@ -51,6 +51,22 @@ CLAIMED = {
         "Tie to the code: translator + vm_compute correspondence against Multi_Range_Potential_Form and potable [Pair] definitions. The statement without the distinct-key hypothesis is refuted in Coq (known finding C08-dupkey).",
    note="Trusted: Coq kernel; tools/py2coq.py printing; floats abstracted by order-isomorphic integers (code only compares); stable-sort model of list.sort; harness generators. No axioms.",
    technique="Coq proof over translated (py2coq) decision procedures + vm_compute correspondence", ref="DESIGN.md section 4 C08"),
+ 'C13': dict(
+   text="Coq theorems over model/Filter.v with FilteredConfigParser._check_tuple regenerated from the source: include S keeps exactly the entries all of whose species are in S, exclude S those none of whose species is in S; the filtered pair/embedding/density lists equal the parse of the file with the offending lines deleted (order and surviving entries unchanged); "
+        "a read through a view depends on that view's own settings only, for every history of creating and reading views (induction over the history); the shared-state behaviour before the repair is refuted in Coq. "
+        "Tie: translator + exact-body assertions; every filtered list of generated models/sets/histories compared by vm_compute; potable --include/--exclude-species output vs the hand-edited file.",
+   note="Trusted: Coq kernel; translator printing; INI lexing by generation; differential comparison of potable outputs runs in the implementation. No axioms.",
+   technique="Coq proof over translated decision procedure + state-machine induction + vm_compute correspondence", ref="DESIGN.md section 4 C13"),
+ 'C14': dict(
+   text="Coq theorems over model/Store.v: for every sequence of override/remove/add operations, applying them to the parsed store equals parsing the hand-edited file, and an operation that cannot be made by hand is a configuration error in both (c14_equiv, induction over the operation list); the edited store is duplicate free; keys are addressed irrespective of whitespace; --list-items is complete with one line per item. "
+        "Tie: exact-body assertions of _init_config_parser / _make_config_parser / _create_override_tuple; resulting stores of ConfigParser(overrides=, additional=) and --list-items output of the potable CLI compared by vm_compute; outputs of operations vs hand-edited files compared.",
+   note="Trusted: Coq kernel; hand-written store model tied by AST assertions + behavioural comparison; INI lexing by generation (stdlib configparser). Reading: removing a section's last item by hand also removes its header. No axioms.",
+   technique="Coq proof (commutation by induction over operations) over a store model + vm_compute correspondence", ref="DESIGN.md section 4 C14"),
+ 'C15': dict(
+   text="Coq theorems over model/Variables.v: the file with placeholder values substituted by hand has the same sections, the same keys in the same order, and every value equal to the interpolated value of the templated file (c15_equiv); changing [Variables] does not change keys or templates of any other section (c15_unused_inert); the leak of variable names into other sections' iteration (behaviour before the repair) is refuted. "
+        "Tie: the parser's options/has_option/get asserted on the AST; keys iterated and interpolated values of every section compared with the model; templated vs hand-substituted file tabulations compared. Known finding C15-shadow (own-section option shadows a variable of the same name).",
+   note="Trusted: Coq kernel; the stdlib's ExtendedInterpolation is an oracle whose assumed behaviour is `interp` (compared on every run); partial: the interpolation engine itself is not verified. No axioms.",
+   technique="Coq proof over a store/interpolation model + vm_compute correspondence", ref="DESIGN.md section 4 C15"),
  'C17': dict(
    text="Coq theorem (lib/Effects.v): for a writer whose effects are 'all evaluations, then one write of the whole table', a fault at ANY evaluation position k leaves nothing written, for every layout (instantiated for all targets); a piecewise writer (GULP / ADP before their repair) is refuted in Coq. "
         "Tie: on every run the recorded interleaving of evaluations and write() calls of every writer must be exactly that sequence, a fault is injected at every evaluation position of small generated tables, and potable is run on every target with a formula that leaves its domain part-way (exit status, output file empty or absent).",
@@ -61,6 +77,12 @@ CLAIMED = {
         "funcfl header = grid tabulated and (Z^2 * 27.2 * 0.529 / r = phi) over the reals; Excel sheets with r/rho in the first column on the tabulation grid and every cell the labelled function at that row. Tie: byte-exact / cell-by-cell correspondence for API and potable routes (nrho != nr generated deliberately).",
    note="Trusted: Coq kernel; Reals axioms + classic for the funcfl identity only; translator printing; openpyxl to read workbooks back; harness.",
    technique="Coq proof over layout models + byte-exact vm_compute correspondence", ref="DESIGN.md section 4 C19"),
+ 'C20': dict(
+   text="Coq theorems over model/Duplicates.v: a second definition of the same pair interaction in either species order is rejected and an accepted [Pair] section defines every interaction once; two lines of one section differing only in whitespace are rejected by the parse; "
+        "an accepted file binds every pair interaction and every potential-form label (formula or table form) to exactly one definition and shadows no built-in form (c20_unique_binding). "
+        "Tie: optionxform/_key_transform/_check_for_duplicate_pairs asserted on the AST; accept/reject verdict of generated models with one entry duplicated in 13 ways compared with Configuration().read.",
+   note="Trusted: Coq kernel; hand-written duplicate-check model tied by AST assertions + behavioural comparison; INI lexing by generation. No axioms.",
+   technique="Coq proof over a duplicate-check model + vm_compute correspondence", ref="DESIGN.md section 4 C20"),
 }
 PENDING_REASON = "check not built yet in this round (planned in DESIGN.md section 4); nothing is claimed for it"
 props = [json.loads(l)['id'] for l in open(os.path.join(HERE, 'properties.jsonl'))]
